@@ -182,5 +182,68 @@ def register(R, P):
             "unchanged(space.own_refs)", "all(r.interface == old(r.interface) for r in every('ReferenceImpl'))",
         ], "modifies": ["content(%s)" % V, "every_content('list[ReferenceImpl]')", "content(self._manager.specs)"]}},
         modifies=["content(%s)" % V, "every_content('list[ReferenceImpl]')", "content(self._manager.specs)"], alloc=True)
+    # ---- update_value (update_pandas / update_module): every reference bound to old_value is re-bound to the new value ----------
+    R.classes["ReferenceImpl"].fields.update({"name": "str"})
+    R.contract("extern::ReferenceManager._impl_change_ref", trusted=True,
+        note="static 6-line dispatcher to ModelImpl.change_ref / SpaceManager.change_ref (model/space layer, not under contract): the "
+             "name is re-bound to a FRESH reference object holding `value`; every other reference object keeps its value, every other "
+             "name and every other holder keep their reference objects",
+        params={"impl": "RefHolder", "name": "str", "value": "val", "refmode": "str"},
+        requires=["name in impl.own_refs"],
+        ensures=["name in impl.own_refs and fresh(impl.own_refs[name]) and impl.own_refs[name].interface == value"
+                 " and impl.own_refs[name].parent is impl and impl.own_refs[name].name == name",
+                 "all(implies(not fresh(r), r.interface == old(r.interface) and r.parent is old(r.parent) and r.name == old(r.name) and r.refmode == old(r.refmode)) for r in every('ReferenceImpl'))",
+                 "all(implies(h is not impl or k != name, (k in h.own_refs) == old(k in h.own_refs) and h.own_refs[k] is old(h.own_refs[k])) for h in every('RefHolder') for k in every('str'))"],
+        raises={}, modifies=["every_content('dict[str,ReferenceImpl]')", "every(ReferenceImpl.interface)", "every(ReferenceImpl.parent)", "every(ReferenceImpl.name)",
+                             "every(ReferenceImpl.refmode)"], alloc=True)
+    R.contract("extern::IOManager.update_spec_value", trusted=True,
+        note="IOManager.update_spec_value -> BaseIOSpec._on_update_value: the spec now carries the (possibly converted) new value, never a modelx Interface",
+        params={"self": "IOManager", "spec": "IOSpec", "value": "val", "kwargs": "object"},
+        ensures=["not is_instance_named(spec.value, 'Interface')", "spec in self.specs"], raises={"*": ["spec.value == old(spec.value)"]},
+        modifies=["spec.value"], alloc=True)
+    R.contract(M + "::ReferenceManager.has_spec",
+        params={"self": "ReferenceManager", "value": "val"}, returns="bool",
+        ensures=["result == any(s in self._manager.specs and s.group is self._model.interface and id_of(s.value) == id_of(value) for s in every('IOSpec'))"],
+        modifies=[], alloc=True)
+    PV = "old(id_of(old_value))"
+    R.contract(M + "::ReferenceManager.update_value",
+        params={"self": "ReferenceManager", "old_value": "val", "new_value": "val", "kwargs": "object"},
+        nullable=["new_value", "kwargs"],
+        field_types={"ReferenceImpl.parent": "RefHolder"},
+        requires=["IOV(self)", "SPEC_UNIQ(self)", "self._manager.specs is not null",
+                  "not is_instance_named(new_value, 'Interface')", "not is_instance_named(old_value, 'Interface')",
+                  # REG: a listed reference is the current member of its holder under its name
+                  "all(implies(i in %s and 0 <= a and a < len(%s[i]), %s[i][a].parent is not null and %s[i][a].name in %s[i][a].parent.own_refs"
+                  " and %s[i][a].parent.own_refs[%s[i][a].name] is %s[i][a]) for i in every('int') for a in every('int'))" % ((V,) * 8),
+                  "all(h.own_refs is not %s for h in every('RefHolder'))" % V],
+        ensures=[
+            "IOV:: IOV(self)",
+            # C18: the references that were bound to the NEW value before stay listed under it (the updated ones are added, not substituted)
+            "KEPT-UNDER-NEW:: all(implies(old(i in %s) and i != %s and 0 <= a and a < old(len(%s[i])), i in %s and a < len(%s[i]) and %s[i][a] is old(%s[i][a])) for i in every('int') for a in every('int'))" % (V, PV, V, V, V, V, V),
+            "NO-OTHER-NEW-ENTRY:: all(implies(i in %s and not old(i in %s), all(fresh(r) for r in %s[i])) for i in every('int'))" % (V, V, V),
+            "OLD-ENTRY-MOVED:: implies(%s in %s, all(fresh(r) for r in %s[%s]))" % (PV, V, V, PV),
+        ],
+        raises={"ValueError": ["UNCHANGED:: unchanged(%s) and unchanged(self._manager.specs)" % V],
+                # IOManager.update_spec_value refusing the new value: nothing was re-bound yet
+                "*": ["UNCHANGED:: unchanged(%s) and unchanged(self._manager.specs)" % V]},
+        loops={0: {"inv": [
+            "refs is %s[id_of(old_value)] and id_of(old_value) in %s and refs is not null and newrefs is not null and newrefs is not refs" % (V, V),
+            "all((i in %s) == old(i in %s) and %s[i] is old(%s[i]) for i in every('int'))" % (V, V, V, V),
+            "all(implies(old(i in %s) and i != id_of(old_value), unchanged(%s[i])) for i in every('int'))" % (V, V),
+            "all(implies(0 <= a and a < len(refs), refs[a] is old(%s[id_of(old_value)][a])) for a in every('int')) and len(refs) <= old(len(%s[id_of(old_value)]))" % (V, V),
+            "all(fresh(r) and r.interface == new_value and r is not null for r in newrefs)",
+            "all(implies(0 <= a and a < b and b < len(newrefs), newrefs[a] is not newrefs[b]) for a in every('int') for b in every('int'))",
+            "all(implies(not fresh(r), r.interface == old(r.interface) and r.parent is old(r.parent) and r.name == old(r.name)) for r in every('ReferenceImpl'))",
+            "all(implies(i in %s and 0 <= a and a < len(%s[i]) and (i != id_of(old_value)), %s[i][a].name in %s[i][a].parent.own_refs"
+            " and %s[i][a].parent.own_refs[%s[i][a].name] is %s[i][a]) for i in every('int') for a in every('int'))" % ((V,) * 7),
+            "all(implies(0 <= a and a < len(refs), refs[a].name in refs[a].parent.own_refs and refs[a].parent.own_refs[refs[a].name] is refs[a]) for a in every('int'))",
+            "not is_instance_named(new_value, 'Interface')",
+            "len(newrefs) + len(refs) == old(len(%s[id_of(old_value)]))" % V,
+        ], "modifies": ["every_content('dict[str,ReferenceImpl]')", "every(ReferenceImpl.interface)", "every(ReferenceImpl.parent)", "every(ReferenceImpl.name)",
+                        "every(ReferenceImpl.refmode)", "every_content('list[ReferenceImpl]')"]}},
+        locals={"newrefs": "list[ReferenceImpl]"},
+        modifies=["every_content('dict[str,ReferenceImpl]')", "every(ReferenceImpl.interface)", "every(ReferenceImpl.parent)", "every(ReferenceImpl.name)",
+                  "every(ReferenceImpl.refmode)", "content(%s)" % V, "every_content('list[ReferenceImpl]')", "every(IOSpec.value)"],
+        alloc=True)
     P["_refmgr"] = ["ReferenceManager.new_ref", "ReferenceManager.del_ref", "ReferenceManager.change_ref", "ReferenceManager.new_space_refs",
-                    "ReferenceManager.del_space_refs"]
+                    "ReferenceManager.del_space_refs", "ReferenceManager.has_spec", "ReferenceManager.update_value"]
